@@ -51,7 +51,7 @@ def run(ck):
         r1.instance(f'Makefile:{vname(opts)}', ok=not why, wclass='make-flags', what='; '.join(sorted(set(why))[:4]))
     ck.analysed(units=['Makefile', 'bin/Makefile'])
     # ---- R17.2
-    r2 = ck.rule('R17.2', 'preprocessed text of every unit other than the documented one(s) is identical under all 8 option combinations; the option macros occur in no other source or header', 20)
+    r2 = ck.rule('R17.2', 'preprocessed text of every unit other than the documented one(s) is identical under all 8 option combinations (headers included through the units that use them), and each option does change its documented unit', 20)
     variants = {}
     for opts in combos():
         us = [u for u in unitdb.units(opts, vname(opts)) if u.group in ('core', 'idn2', 'cli')]
@@ -71,16 +71,6 @@ def run(ck):
         on = variants[vname({o: 'ON'})][1]
         for rel in DOCUMENTED[o]:
             r2.instance(f'{rel}:{o}', ok=on.get(rel) != ref.get(rel), wclass='option-dead', what=f'{o}=ON does not change {rel}')
-    hits = []
-    for root in ('src', 'include', 'partial', 'bin'):
-        for dp, dn, fn in os.walk(os.path.join(REPO, root)):
-            for f in fn:
-                if not f.endswith(('.c', '.h')): continue
-                rel = os.path.relpath(os.path.join(dp, f), REPO)
-                txt = open(os.path.join(dp, f), errors='replace').read()
-                for o in OPTS:
-                    if re.search(r'\b' + o + r'\b', txt) and rel not in DOCUMENTED[o]: hits.append(f'{rel} mentions {o}')
-    r2.instance('sources:option-macros', ok=not hits, wclass='macro-elsewhere', what='; '.join(hits))
     # ---- O17.3
     o3 = ck.rule('O17.3', 'languages under the options: RFC20 = default minus unquoted #^`{|}~ (6531 only); RFC5322 = mode 6531 judges pure-ASCII local parts as is_5322_local does; each with the other option at both values', 3)
     jobs = []; meta = []
